@@ -11,6 +11,7 @@ Suites
                      the implementation's own parse
   COMPARE-small      exhaustive pairs of short key sequences (duplicates included)
   COMPARE-junkkey    a localization key equal to the generated key of a reference Junk
+  E2E-dtd            likewise for .dtd through compare_dtd (html.unescape passed as its graph on the raw values)
   E2E-properties     the same .properties cases through the TEXT-level model compare_properties (parser
                      model, unescape, count_words, Junk keys, comparison): only the two texts, the
                      filter and the checker's findings are passed
@@ -422,6 +423,7 @@ class Tables:
         self.ref = list(p.parse())
         p.readFile(l10npath)
         self.l10n = list(p.parse())
+        self.fmt = fmt
         self.msg_ids = {}
         self.junk_msg = {}          # entity id -> message id
         self.keys = {}
@@ -697,11 +699,22 @@ def post(tables, merge, out, quiet=0):
                 tables.canon_model_notes(det), summ]]
 
 
+def FILE_FMT(tables):
+    return tables.fmt
+
+
 def e2e_request(tables, req, ref_text, l10n_text):
     """the same comparison for the text-level model (compare_properties): the two TEXTS instead
     of the parse; entities are named by the offset at which their span starts"""
+    from compare_locales import parser
     vt, _, _, chk_sx, merge = req[1]
     rows = [[tables.ref[i].span[0], tables.l10n[j - 1000].span[0], fs] for i, j, fs in chk_sx]
+    if FILE_FMT(tables) == "dtd":
+        # html.unescape is an oracle of the DTD model: its graph on the raw values of the two files
+        html = sorted({(e.raw_val, e.val) for e in tables.ref + tables.l10n
+                       if not isinstance(e, parser.Junk)})
+        return (5, [vt, s2l(ref_text), s2l(l10n_text), rows, merge, 0,
+                    [[s2l(a), s2l(b)] for a, b in html]])
     return (4, [vt, s2l(ref_text), s2l(l10n_text), rows, merge, 0])
 
 
@@ -737,7 +750,7 @@ def suite_compare(chk, work, model, fmt, n, spicy):
         reqs.append(req)
         impl.append(res)
         tabs.append((tables, merge, quiet))
-        if fmt == "properties":
+        if fmt in ("properties", "dtd"):
             e2e.append(e2e_request(tables, req, ref_text, l10n_text))
         descs.append(desc)
         chk.hist(f"{fmt}_ref_entities", min(len(tables.ref), 9))
@@ -769,7 +782,7 @@ def suite_compare(chk, work, model, fmt, n, spicy):
         if e2e:
             # texts -> report: parser model + unescape + count_words + comparison, nothing fed
             outs = [e2e_post(t, m, o, q) for (t, m, q), o in zip(tabs, model.call(e2e))]
-            chk.correspond(f"E2E-properties{'-spicy' if spicy else ''}", descs, impl, outs)
+            chk.correspond(f"E2E-{fmt}{'-spicy' if spicy else ''}", descs, impl, outs)
         # the word counts the model was fed, against the model of Entry.count_words
         vals = sorted({vw for t, _, _ in tabs for vw in t.word_vals})
         if vals:
